@@ -322,12 +322,16 @@ pub fn preprocess_str<T: AsRef<Path>, U: AsRef<Path>, V: BuildHasher>(
                 let locate: Locate = x.try_into().unwrap();
                 // If the item is whitespace, last_item_line should not be updated
                 if !locate.str(s).trim().is_empty() {
-                    last_item_line = Some(locate.line);
+                    // The item may span several lines: the line of its last character counts
+                    let lines = locate.str(s).trim_end().matches('\n').count() as u32;
+                    last_item_line = Some(locate.line + lines);
                 }
             }
             NodeEvent::Leave(RefNode::CompilerDirective(x)) => {
                 let locate: Locate = x.try_into().unwrap();
-                last_item_line = Some(locate.line);
+                // The directive may span several lines: the line it ends on counts
+                let lines = locate.str(s).trim_end().matches('\n').count() as u32;
+                last_item_line = Some(locate.line + lines);
             }
             _ => (),
         }
